@@ -1,5 +1,8 @@
 import Qryn.Proofs.ReadCode
 import Qryn.Proofs.ReadPipe
+import Qryn.Proofs.ReadPipeH
+import Qryn.Proofs.ReadPipeHExec
+import Qryn.Proofs.ReadCensus
 /-! # C12 — no query can crash, hang or leak work on the read side   (PARTIAL: bookkeeping proved, runtime explored)
 
 Property theorems only. Models: `Qryn.ReadSide` (Params.lean: controllers' parameter handling, `FixPeriodPlanner`,
@@ -7,7 +10,9 @@ aggregators, `LimitPlanner`, scanner buffer, TraceQL rows, Tempo trace id, with 
 and the goroutine that runs each piece deciding what a fault means) and `Qryn.ReadSide.Pipe` (Pipeline.lean: the channel
 pipeline as a transition system). `Gen.ReadSide` is regenerated from /repo on every run: every `go` statement of the
 request path with whether it recovers, every HTTP handler with whether it starts with `defer tamePanic`, the guard
-conditions of the modelled arithmetic as source text, and the constants.
+conditions of the modelled arithmetic as source text, and the constants. `Gen.ReadGoroutines` (also regenerated):
+the fault-site census of every goroutine started under reader/ and the receive loops of the handlers; its review is
+`ReadSide/Census.lean`. `ReadSide/PipelineH.lean`: the pipeline with the HTTP handler as a component.
 
 What is NOT proved here (explored in child processes by the harness instead): the Go scheduler, memory, context
 propagation inside `database/sql`, Prometheus' engine, the third-party parsers. -/
@@ -37,14 +42,14 @@ theorem aggregator_guards_as_modelled :
 theorem limit_conditions_as_modelled :
     ReadSide.limitConds = ["limit == 0", "sent >= limit", "sent+len(entries) < limit", "ctx.CancelCtx != nil"] := by decide
 
-/-- the goroutines of the request path that run WITHOUT a recover (pure drains and `close` one-liners left out).
-    Each is covered below or has no fault site:
+/-- the goroutines of the request path that run WITHOUT a recover (pure drains and `close` one-liners left out) — the
+    inventory of the first round, kept; `fault_site_census` below covers every `go` statement under reader/ and lists
+    the fault sites of each. Where the arithmetic is modelled:
     * `FixPeriodPlanner.Process#1` — arithmetic and slicing: `detached_goroutines_fault_free` (1);
     * `ClickhouseGetterPlanner.Process#1/#2` (`Scan`, `ScanMatrix`) — the batch buffer: (2);
     * `TraceQLRequestProcessor.Process#1` — three parallel arrays of one `groupArray` row: (3);
-    * the exporters (`QueryRange#1/#2`, `QueryInstant#1/#2`, `Tail#1`), the label/series/tag/value/search senders and
-      the forwarding loops: channel operations, `rows.Scan` into locals and JSON encoding only — no index, slice,
-      division, allocation-by-parameter or type assertion. -/
+    * the exporters, the label/series/tag/value/search senders and the forwarding loops have, by the census, no index,
+      slice, division, allocation-by-parameter or type-assertion site at all: only sends and their own `close`. -/
 def detachedModelled : List String :=
   ["service/queryLabelsService.go:QueryLabelsService.GenericLabelReq#1",
    "service/queryLabelsService.go:QueryLabelsService.Series#1",
@@ -85,6 +90,59 @@ def unreachableEarlyReturn : List String :=
     (`drainEntries`, an empty `for range`) — the exporters, `WrapProcess`, `FixPeriodPlanner`, the forwarders. -/
 theorem consumers_drain :
     ∀ c ∈ ReadSide.consumers, c.2.1 = true → c.2.2 = true ∨ c.1 ∈ unreachableEarlyReturn := by decide
+
+/-! ### T: the fault-site census of every goroutine started under reader/ -/
+open Qryn.ReadSide.Census in
+/-- **fault_site_census.** `Gen.ReadGoroutines` lists, for every `go` statement under reader/ (function literal or
+    named function; followed through deferred calls, local closures, callbacks and same-package callees four levels
+    deep, a deeper call being itself a site) whose goroutine has no recover of its own, every syntactic place where the
+    run time can panic: index / slice / store through an index, type assertion without `, ok`, division and shift by a
+    non-constant, `make` with a size that is neither constant nor a `len`, explicit dereference, slice-to-array
+    conversion, `panic`, send, close, dropped error, call of a function value, and the library calls at which the
+    census stops. The theorem says that this regenerated list is EXACTLY the reviewed one (`Census.reviewed`: same
+    goroutines, same sites, same order; each with its classification), that every classification that cites a
+    dominating condition (`guarded c`) or the sole-close fact (`ownChannel`) is backed by what the translator found at
+    that site, and that the library calls are exactly the reviewed ones. A new `make([]T, n)` with a request-derived
+    `n` in `Scan`, a new index expression, a removed guard, a second `close`, a new callee — each changes the
+    regenerated list and breaks this theorem until the site is reviewed. This replaces "by reading" for the
+    goroutines other than FixPeriodPlanner / Scan / ScanMatrix / TraceQL: what is still by reading is, per entry, the
+    reason string of a `contract`, `harmless`, `sizedBy`, `mapAccess` or `drainedBy` classification. -/
+theorem fault_site_census :
+    censusMatches unrecovered reviewed = true ∧
+    ReadGoroutines.externsUnion = reviewedExterns.map (·.1) := ⟨census_checked, externs_checked⟩
+
+open Qryn.ReadSide.Census in
+/-- the un-recovered goroutines of the older, narrower inventory (`goroutine_inventory`) are among those of the census -/
+theorem census_covers_inventory :
+    ∀ n ∈ detachedModelled, n ∈ unrecovered.map (·.1) := by decide +kernel
+
+open Qryn.ReadSide.Census in
+/-- **producers_rely_on_drain.** No send of any goroutine started under reader/ (the recovered stages included) is an
+    alternative of a `select` with a `<-ctx.Done()` alternative: every producer's send is unconditional. Hence the
+    convention the code relies on is the FIRST of the two under which `no_blocked_sender` holds — the consumer reads
+    until close, or leaves a drainer behind — and not the context. (Scan/ScanMatrix poll `ctx.Done()` between rows
+    only to stop early.) -/
+theorem producers_rely_on_drain :
+    ∀ g ∈ ReadGoroutines.goroutines, (sendProfile g).2.2 = 0 := no_send_selects_done
+
+/-- what the body of a handler's receive loop may call without the handler leaving a drain behind: the response
+    writer, the JSON encoder on strings / flat structs, `append`, `make`, printing — nothing that walks stored data -/
+def harmlessLoopCalls : List String :=
+  ["w.Write", "json.Marshal", "append", "make", "fmt.Println"]
+
+/-- **handler_loops_read_to_close.** The consumer side of `no_blocked_sender` in the source: every loop of
+    reader/controller that receives from a service channel either
+    * leaves a drainer behind when the handler returns (`defer func(){ for range ch {} }()`: the Tempo trace
+      handler, whose loop body renders stored spans, and the websocket tail, which also cancels), or
+    * has no `return` / `break` / `goto` / `panic` in its body AND calls nothing but the response writer, the JSON
+      encoder, `append`, `make` and `fmt.Println` there — so neither a statement nor a recovered panic of a callee
+      takes the handler out of the loop before the producer has closed the channel.
+    The seeded change C12-1 (a `return` on a write error or a cancelled request context inside `for str := range ch`)
+    and the defect fixed in this round (the trace handler's loop calls `SpanToJSONSpan`, which dereferences a stored
+    attribute value; the recovered panic left the span sender blocked for ever) both fail this condition. -/
+theorem handler_loops_read_to_close :
+    ∀ l ∈ ReadGoroutines.handlerLoops,
+      l.2.2.2.1 = true ∨ (l.2.2.1 = false ∧ ∀ c ∈ l.2.2.2.2.2, c ∈ harmlessLoopCalls) := by decide
 
 /-- handlers that answer without touching the database or speak another protocol (websocket tail) -/
 def staticHandlers : List String :=
@@ -300,6 +358,99 @@ theorem pipeline_without_drain_deadlocks :
     have := hF.1
     simp [S0, start] at this
 
+/-! ## the pipeline with its consumer: no producer stays blocked when the handler stops reading -/
+
+/-- **no_blocked_sender.** The handler is part of the transition system (`PipelineH.lean`): it may leave its copy loop
+    at ANY point (`stop`: client gone, write error, limit reached), the request context may be cancelled at any point
+    (`envCancel`). For every pipeline length, every result set (batches with arbitrary futures), every closing output
+    and every interleaving: under the code's convention — the handler's code keeps the channel drained
+    (`onStop = drain`: qryn, by `handler_loops_read_to_close` — a loop that is never left early, or a deferred drainer), OR it cancels a context on which every producer's send
+    selects (`onStop = cancel ∧ sel`) — and with every stage keeping its input consumed (`consumers_drain`),
+    (a) every move strictly decreases `measure`: every schedule is finite;
+    (b) a state that is not final has a move: no send blocks for ever, wherever the handler stopped;
+    (c) a schedule can only end in the final state — scanner, every stage and the exporter returned, every channel
+        closed, the handler out of its loop — and that state is reachable from every reachable state. -/
+theorem no_blocked_sender (n : Nat) (hn : 0 < n) (rows : List Item) (flush : Nat → List Item)
+    (c : OnStop) (sel : Bool) (hconv : c = .drain ∨ (c = .cancel ∧ sel = true)) (S : HSys)
+    (hr : HRun (hstart n rows flush (fun _ => true) c sel) S) :
+    (∀ S', HStep S S' → S'.measure < S.measure) ∧
+    S.measure ≤ (hstart n rows flush (fun _ => true) c sel).measure ∧
+    (¬ HFinal S → ∃ S', HStep S S') ∧
+    ((∀ S', ¬ HStep S S') → HFinal S) ∧
+    (∃ S', HRun S S' ∧ HFinal S') := by
+  have hI : HInv S := hrun_inv (hstart_inv n hn rows flush c sel) hr
+  have hc : Convention S := by
+    have := hrun_code hr
+    unfold Convention
+    rw [this.1, this.2]
+    exact hconv
+  refine ⟨fun S' h => hstep_measure h, hrun_measure hr, fun hF => hprogress hI hc hF, ?_, hreaches_final S hI hc⟩
+  intro hstuck
+  by_cases hF : HFinal S
+  · exact hF
+  · obtain ⟨S', hs⟩ := hprogress hI hc hF
+    exact absurd hs (hstuck S')
+
+/-- **abandoned_exporter_never_returns.** The counter-pattern in general: once the handler has left its loop, its
+    code does not drain and the producers do not watch the context (`onStop ≠ drain`, `sel = false`: seeded change
+    C12-1 on today's producers — also when the handler "only" cancels the request context), and the exporter has a chunk to hand over, then in EVERY continuation, whatever the
+    pipeline length and the schedule, the exporter still holds that chunk: it never returns, its deferred drain never
+    runs, the final state is never reached. -/
+theorem abandoned_exporter_never_returns (S S' : HSys) (hA : Abandoned S) (hr : HRun S S') :
+    (S'.sys.stg (S'.sys.n - 1)).buf ≠ [] ∧ ¬ HFinal S' :=
+  ⟨(hrun_abandoned hA hr).pending, abandoned_not_final (hrun_abandoned hA hr)⟩
+
+/-- the full-strength statement for a handler that simply returns early — false -/
+def early_return_terminates_full : Prop :=
+  ∀ (n : Nat) (rows : List Item) (flush : Nat → List Item) (S : HSys), 0 < n →
+    HRun (hstart n rows flush (fun _ => true) .abandon false) S → ∃ S', HRun S S' ∧ HFinal S'
+
+/-- **early_return_terminates_counterexample** (seeded change C12-1: `for str := range ch { if r.Context().Err() != nil
+    { return } … }`): one stage, one row that makes the exporter produce one chunk; the handler leaves before the chunk
+    is handed over. The exporter is blocked in `res <- chunk` for ever: no continuation reaches the final state. -/
+theorem early_return_terminates_counterexample : ¬ early_return_terminates_full := by
+  intro hfull
+  let row : Item := .mk false [.mk false []]
+  let S0 := hstart 1 [row] (fun _ => []) (fun _ => true) .abandon false
+  let S1 : HSys := { S0 with reading := false, ctxDone := S0.ctxDone || (S0.onStop == OnStop.cancel) }
+  let T : Sys := { S1.sys with src := [], stg := upd S1.sys.stg 0 ((S1.sys.stg 0).recv row) }
+  have st1 : HStep S0 S1 := HStep.stop S0 rfl
+  have st2 : HStep S1 { S1 with sys := T } :=
+    HStep.work S1 T (Step.srcSend S1.sys row [] rfl (by decide) ⟨rfl, rfl, Or.inl rfl⟩)
+      (fun ⟨it, h⟩ => by simp [S1, S0, hstart, start] at h)
+  have hrun : HRun S0 { S1 with sys := T } := HRun.step st1 (HRun.step st2 (HRun.refl _))
+  have hA : Abandoned { S1 with sys := T } := by
+    refine ⟨rfl, by decide, rfl, by decide, ?_⟩
+    simp [T, S1, S0, hstart, start, upd, Stg.recv, row]
+  obtain ⟨S', hr', hF⟩ := hfull 1 [row] (fun _ => []) _ (by decide) hrun
+  exact (abandoned_exporter_never_returns _ S' hA hr').2 hF
+
+/-- **consumer_schedule_sound.** What the compiled model answers in the `consumer` correspondence stream
+    (`c12hstop`: scanner → exporter → a consumer that leaves after `k` chunks and then drains / cancels / abandons) is
+    a statement about the transition system: the state the executable schedule `hsched` ends in is REACHABLE from the
+    start state by moves of `HStep`; if the verdict is `final`, every goroutine has returned there; if it is `blocked`,
+    no continuation whatsoever reaches the final state (the exporter never returns). -/
+theorem consumer_schedule_sound (k fuel : Nat) (S : HSys) :
+    HRun S (hsched k fuel S 0).1 ∧
+    (verdict (hsched k fuel S 0).1 = "final" → HFinal (hsched k fuel S 0).1) ∧
+    (verdict (hsched k fuel S 0).1 = "blocked" → ∀ S', HRun (hsched k fuel S 0).1 S' → ¬ HFinal S') := by
+  refine ⟨hsched_run k fuel S 0, ?_, ?_⟩
+  · intro hv
+    apply hfinalB_sound
+    unfold verdict at hv
+    split at hv
+    · assumption
+    · split at hv <;> simp at hv
+  · intro hv S' hr
+    have hb : abandonedB (hsched k fuel S 0).1 = true := by
+      unfold verdict at hv
+      split at hv
+      · simp at hv
+      · split at hv
+        · assumption
+        · simp at hv
+    exact (abandoned_exporter_never_returns _ S' (abandonedB_sound _ hb) hr).2
+
 -- non-vacuity: the hypotheses of the theorems above are satisfiable and the guard lets ordinary requests through
 example : fixGuard ReadSide.maxFixPeriodPoints ⟨1700000000000000000, 1700003600000000000, 15000000000, 60000000000⟩ = true := by decide
 example : fixProcess FixCode.fixed ReadSide.maxFixPeriodPoints ⟨1700000000000000000, 1700000060000000000, 30000000000, 60000000000⟩
@@ -309,5 +460,13 @@ example : lokiQueryRange code ⟨false, .ok 1700000000000000000, .ok 17000036000
 example : limitRun 5 0 [3, 3, 3] = .ok ([3, 2], true) := by decide
 example : scanLoop 3 0 (List.replicate 7 RowEv.row) = .ok [3, 3, 2] := by decide
 example : Inv (start 3 [.mk false [.mk false []]] (fun _ => []) (fun _ => true)) := start_inv 3 (by decide) _ _
+-- the handler can leave before anything was sent, under both conventions; the hypotheses of `no_blocked_sender` hold at the start
+example : ∃ S', HStep (hstart 2 [.mk false [.mk false []]] (fun _ => []) (fun _ => true) .drain false) S' ∧ S'.reading = false :=
+  ⟨_, HStep.stop _ rfl, rfl⟩
+example : HInv (hstart 2 [.mk true []] (fun _ => []) (fun _ => true) .cancel true) := hstart_inv 2 (by decide) _ _ _ _
+-- the schedule the driver runs: 3 + 2 chunks and the closing one; the consumer leaves after 2
+example : exporterRun [(3, false), (2, false)] .drain 2 = ("final", 2) := by decide +kernel
+example : exporterRun [(3, false), (2, false)] .abandon 2 = ("blocked", 2) := by decide +kernel
+example : exporterRun [(3, false), (2, true), (5, false)] .abandon 5 = ("final", 5) := by decide +kernel
 
 end Qryn.C12
